@@ -23,7 +23,8 @@
    observed by the harness (both inputs before/after each call, and the model
    is compared against the inputs as they are AFTER the call). *)
 From Coq Require Import List ZArith Bool Arith Permutation.
-From NT Require Import Sx Rose Diff DiffProofs DiffMore DiffSrc DiffIds DiffMeta CaseC11.
+From NT Require Import Sx Rose Diff DiffProofs DiffMore DiffSrc DiffIds DiffMeta DiffBranch CaseC11.
+From NT Require WF.
 From NTGen Require Import Generated.
 Import ListNotations.
 
@@ -45,7 +46,7 @@ Proof. exact dom_b_sound. Qed.
 Print Assumptions C11_domain_decidable.
 
 (* a non-trivial member of the domain, used by the examples below:
-   t0 = a(b, c), d, e      t1 = e, a(c, x(b), b'), f(b)      (b' == b, a clone) *)
+   t0 = a(b, c), d, e      t1 = e, a(c, x(b)), f(b)      (b occurs twice in t1: nodes 15 and 17) *)
 Definition nd (id : nat) (l : Z) (ch : list rt) : rt := T id (I l l (100 + l) true [l] (DInt (100 + l)) None []) ch.
 Definition ex_t0 : forest := [nd 1 1 [nd 2 2 []; nd 3 3 []]; nd 4 4 []; nd 5 5 []].
 Definition ex_t1 : forest := [nd 11 5 []; nd 12 1 [nd 13 3 []; nd 14 9 [nd 15 2 []]]; nd 16 6 [nd 17 2 []]].
@@ -287,3 +288,133 @@ Example ex_user_meta_not_copied :
   map (fun x => rmeta x) (pre_f (snd (diff_with [] true false t0 t1))) = [[(k_dc, dc_sx REMOVED)]; [(k_dc, order_sx 1 0)]] /\
   snd (diff_with [] true true t0 t1) = snd (diff_with [] true false t0 t1).
 Proof. split; reflexivity. Qed.
+
+(* ======== audit follow-up ===================================================== *)
+(* ---- marks INSIDE an added branch (the rule of _copy_children) ----------------- *)
+(* below the root and below every node present in both trees, every child marked
+   ADDED/MOVED_HERE heads a branch whose FIRST LEVEL is marked ADDED/MOVED_HERE
+   and whose deeper nodes carry no mark or MOVED_HERE -- for every iteration
+   order (the re-classification can only turn nodes of the branch into
+   MOVED_HERE; which ones is fixed by C11_moved_pairs / C11_moves_complete).
+   The relation is also part of the master relation now ([copy1] in [lvl]). *)
+Theorem C11_marks_inside_added_branches : forall order ordered t0 t1, dom t0 t1 ->
+  added_rule (snd (diff_with order ordered false t0 t1)) t0 t1.
+Proof. exact diff_added_rule. Qed.
+Print Assumptions C11_marks_inside_added_branches.
+
+(* non-vacuity, and the audit's counter-models are excluded: for t0 = [],
+   t1 = a(b(c)) the real result marks a and b ADDED and c not at all; a result
+   with b unmarked, or with c marked ADDED too, violates the rule *)
+Definition ex_chain : forest := [nd 1 1 [nd 2 2 [nd 3 3 []]]].
+Definition ex_ri (l : Z) (m : meta) := res_info (I l l (100 + l) true [l] (DInt (100 + l)) None []) m.
+Example ex_added_branch_real :
+  map (fun x => (rid x, mark x)) (pre_f (snd (diff_with [] false false [] ex_chain))) =
+  [(3, Some (dc_sx ADDED)); (5, Some (dc_sx ADDED)); (7, None)].
+Proof. reflexivity. Qed.
+Example ex_added_branch_excludes_unmarked_first_level :
+  ~ added_rule [T 3 (ex_ri 1 m_added) [T 5 (ex_ri 2 []) [T 7 (ex_ri 3 []) []]]] [] ex_chain.
+Proof.
+  intros H. inversion H as [? ? ? B _]; subst.
+  specialize (B _ (or_introl eq_refl) eq_refl). inversion B as [|? ? [N _] _]; subst. discriminate N.
+Qed.
+Example ex_added_branch_excludes_all_levels_marked :
+  ~ added_rule [T 3 (ex_ri 1 m_added) [T 5 (ex_ri 2 m_added) [T 7 (ex_ri 3 m_added) []]]] [] ex_chain.
+Proof.
+  intros H. inversion H as [? ? ? B _]; subst.
+  specialize (B _ (or_introl eq_refl) eq_refl). inversion B as [|? ? [_ D] _]; subst.
+  inversion D as [|? ? [E|E] _]; subst; discriminate E.
+Qed.
+
+(* inside such a branch, reduce=True keeps a deep node iff a MOVED_HERE node lies
+   in its own sub-branch (with C11_reduce_exact: the shape of reduced added
+   branches no longer rests on the correspondence alone) *)
+Theorem C11_reduced_added_branch : forall z, Forall deep_mark_ok (pre z) ->
+  (existsb pred_dc (pre z) = true <-> exists w, In w (pre z) /\ has_dc w MOVED_HERE = true).
+Proof. exact deep_keep. Qed.
+Print Assumptions C11_reduced_added_branch.
+
+(* ---- the domain for reachable trees ------------------------------------------- *)
+(* Mut/WF.v's [sib_unique] (proved for every reachable tree by C03) is sibling
+   uniqueness of DATA_IDS = [dsu]; [DiffProofs.sib_unique] is sibling uniqueness
+   of DATA.  Over a label alphabet on which == and data_id agree ([did_is_data]:
+   an assumption about the alphabet -- no explicit ids that disagree with ==, no
+   hash collisions) the first gives the second and every hypothesis used in this
+   file: the domain costs nothing *)
+Theorem C11_reachable_domain : forall t0 t1,
+  WF.sib_unique t0 -> WF.sib_unique t1 -> did_is_data (pre_f t0 ++ pre_f t1) ->
+  dom t0 t1 /\ DiffProofs.sib_unique t0 /\ DiffProofs.sib_unique t1 /\
+  did_inj (pre_f t0 ++ pre_f t1) /\ dsu t0 /\ dsu t1.
+Proof. exact reachable_domain. Qed.
+Print Assumptions C11_reachable_domain.
+
+Definition agree_b (l : list rt) : bool :=
+  forallb (fun x => forallb (fun y => Bool.eqb (Z.eqb (key x) (key y)) (did_eqb (rdid x) (rdid y))) l) l.
+Lemma agree_b_sound l : agree_b l = true -> did_is_data l.
+Proof.
+  unfold agree_b. intros H x y Hx Hy. rewrite forallb_forall in H. specialize (H x Hx). rewrite forallb_forall in H.
+  specialize (H y Hy). apply Bool.eqb_prop in H. rewrite <- Z.eqb_eq, <- did_eqb_eq, H. tauto.
+Qed.
+Example ex_reachable_domain :
+  WF.sib_unique ex_t0 /\ WF.sib_unique ex_t1 /\ did_is_data (pre_f ex_t0 ++ pre_f ex_t1) /\
+  did_inj (pre_f ex_t0 ++ pre_f ex_t1).
+Proof.
+  assert (A : did_is_data (pre_f ex_t0 ++ pre_f ex_t1)) by (apply agree_b_sound; vm_compute; reflexivity).
+  refine (conj _ (conj _ (conj A _))).
+  - apply dsu_b_sound. reflexivity.
+  - apply dsu_b_sound. reflexivity.
+  - intros x y Hx Hy E. now apply A.
+Qed.
+
+(* ---- outside the domain: what the library (and the model) really does --------- *)
+(* The property quantifies over trees "over a shared label alphabet": equal labels
+   <=> equal data <=> equal data_id.  With explicit data_ids / a calc_data_id that
+   disagree with ==, clauses 1-4 are false for the code and for the model: *)
+(* (ii) a t1 child whose data_id equals that of an UNEQUAL t0 sibling is neither
+   matched (by ==) nor added (by data_id): it is lost *)
+Example C11_outside_domain_node_lost :
+  let t0 := [T 1 (I 1 1 7 true [97] (DStr [107]) None []) []]%Z in
+  let t1 := [T 2 (I 2 2 8 true [98] (DStr [107]) None []) []]%Z in
+  dsu t0 /\ dsu t1 /\ dom_b t0 t1 = false /\
+  paths_f (flat_map drop10 (snd (diff_with [] false false t0 t1))) = [] /\ paths_f t1 = [[2]]%Z.
+Proof. refine (conj _ (conj _ _)); [apply dsu_b_sound; reflexivity|apply dsu_b_sound; reflexivity|repeat split]. Qed.
+(* (i) two ==-equal siblings under different data_ids: the diff of the tree with
+   itself carries an order mark and dc_renumbered *)
+Example C11_outside_domain_self_diff_marks :
+  let a1 := T 1 (I 1 1 7 true [97%Z] (DStr [120%Z]) None []) [] in
+  let a2 := T 2 (I 2 1 7 true [97%Z] (DStr [121%Z]) None []) [] in
+  dsu [a1; a2] /\ Forall2 same [a1; a2] [a1; a2] /\
+  map (fun x => (rid x, mark x)) (pre_f (snd (diff_with [] true false [a1; a2] [a1; a2]))) =
+    [(2, None); (4, Some (order_sx 1 0))] /\
+  fst (diff_with [] true false [a1; a2] [a1; a2]) = [(k_ren, A 1%Z)].
+Proof.
+  refine (conj _ (conj _ (conj _ _))); [apply dsu_b_sound; reflexivity| |reflexivity|reflexivity].
+  repeat constructor.
+Qed.
+(* (iii) == data under different data_ids across the trees: the t1 node is matched
+   AND added, its branch appears twice in the result (two nodes with one identity) *)
+Example C11_outside_domain_branch_copied_twice :
+  let t0 := [T 1 (I 1 1 7 true [97%Z] (DStr [120%Z]) None []) []] in
+  let t1 := [T 2 (I 2 1 7 true [97%Z] (DStr [121%Z]) None []) [T 3 (I 3 3 9 true [99%Z] (DInt 9) None []) []]] in
+  dsu t0 /\ dsu t1 /\ dom_b t0 t1 = false /\
+  ids (snd (diff_with [] false false t0 t1)) = [2; 7; 5; 7].
+Proof. refine (conj _ (conj _ _)); [apply dsu_b_sound; reflexivity|apply dsu_b_sound; reflexivity|split; reflexivity]. Qed.
+
+(* KNOWN FINDING D91: (ii) is reachable with DEFAULT data_ids when the alphabet has
+   two unequal labels with one hash (CPython: hash(-1) == hash(-2) == -2).  The full
+   statement of the projection law for all well-formed default-id trees is false: *)
+Definition C11_projection_t1_unrestricted : Prop := forall order ordered t0 t1,
+  dsu t0 -> dsu t1 -> default_ids (pre_f t0 ++ pre_f t1) ->
+  Permutation (paths_f (flat_map drop10 (snd (diff_with order ordered false t0 t1)))) (paths_f t1).
+Theorem C11_projection_t1_unrestricted_refuted : ~ C11_projection_t1_unrestricted.
+Proof.
+  intros H.
+  set (t0 := [T 1 (I 1 1 (-2) false [45; 49] (DInt (-2)) None []) []]%Z).
+  set (t1 := [T 2 (I 2 2 (-2) false [45; 50] (DInt (-2)) None []) []]%Z).
+  assert (P := H [] false t0 t1).
+  assert (D0 : dsu t0) by (apply dsu_b_sound; reflexivity).
+  assert (D1 : dsu t1) by (apply dsu_b_sound; reflexivity).
+  assert (DI : default_ids (pre_f t0 ++ pre_f t1)).
+  { intros x Hx. cbn in Hx. destruct Hx as [<-|[<-|[]]]; reflexivity. }
+  specialize (P D0 D1 DI). vm_compute in P. apply Permutation_nil in P. discriminate P.
+Qed.
+Print Assumptions C11_projection_t1_unrestricted_refuted.
